@@ -137,3 +137,43 @@ def registration_always_recorded(prog, attr, n_fields):
             'the recorded tuple is not the arguments of the call')
         out.append((rf, always and args_ok, why))
     return out
+
+
+def exogenous_applied(prog):
+    """Model._ProcessExogenous-like function: every (sector, variable, value) entry of self.Exogenous is written into the
+    variable's equation as 'EXOGENOUS ' + value, unconditionally (a later entry therefore overrides an earlier one).
+    -> (funcinfo, ok, why)"""
+    from ..dataflow import target_names
+    M = prog.classes.get('Model')
+    cands = []
+    for f in (M.methods.values() if M else []):
+        for loop in [n for n in ast.walk(f.node) if isinstance(n, ast.For)]:
+            if isinstance(loop.iter, ast.Attribute) and loop.iter.attr == 'Exogenous' and any(
+                    isinstance(c, ast.Call) and call_name(c) == 'SetEquationRightHandSide' for c in ast.walk(loop)):
+                cands.append((f, loop))
+    if len(cands) != 1:
+        raise AnalysisError('expected one function applying self.Exogenous to the sectors, found %s' % [f.qualname for f, _ in cands])
+    f_raw, _ = cands[0]
+    f = flatten(prog, f_raw)
+    loop = [n for n in ast.walk(f.node) if isinstance(n, ast.For) and isinstance(n.iter, ast.Attribute) and n.iter.attr == 'Exogenous'][0]
+    g = cfgmod.build(f)
+    lv = target_names(loop.target)
+    hdr = [h for h in g.nodes if h.kind == 'for' and h.stmt is loop][0]
+    sets = []
+    val_ok = True
+    for nd in g.stmt_nodes():
+        if nd.kind == 'stmt' and loop in nd.loops:
+            for c in ast.walk(nd.ast):
+                if isinstance(c, ast.Call) and call_name(c) == 'SetEquationRightHandSide' and len(c.args) >= 2:
+                    sets.append(nd)
+                    v = c.args[1]
+                    val_ok = val_ok and isinstance(v, ast.BinOp) and isinstance(v.op, ast.Add) and isinstance(v.left, ast.Constant) and \
+                        isinstance(v.left.value, str) and v.left.value.strip() == 'EXOGENOUS' and len(lv) == 3 and unparse(v.right) == lv[2] and \
+                        unparse(c.args[0]) == lv[1]
+    first = [b for b, lab in g.succ[hdr.id] if lab is True]
+    every = bool(sets) and all(g.nodes[b] in sets or g.must_pass(b, hdr, sets) for b in first)
+    ok = every and val_ok
+    why = 'every entry of the exogenous list is written into its variable as given' if ok else (
+        'an entry of the exogenous list can be skipped: an earlier definition then wins over the one supplied last' if not every else
+        'the value written is not the supplied one')
+    return f_raw, ok, why
